@@ -12,6 +12,13 @@ for f in sorted(glob.glob('/verif/evidence/C*.json')):
     q = c.get('queries', {})
     nq = q.get('z3', {}).get('queries', 0) + q.get('cvc5_fp', {}).get('queries', 0)
     rows.append('| %s | %s | %d | %s | %s | %s | %s | %s | %s |' % (e['property_id'], e['tier'], len(c.get('harnesses', [])), c.get('states'), c.get('transitions'), nq, c.get('solver_time_s'), c.get('traces_validated_against_impl'), e.get('wall_s')))
+th = ['| id | states | decisions | wall |', '|---|---|---|---|']
+import re as _re
+for line in open('/verif/tools/last_thorough_run.txt'):
+    m = _re.match(r'property=(C\d+) tier=thorough states=(\d+) transitions=(\d+) .* wall=([\d.]+)s', line)
+    if m:
+        th.append('| %s | %s | %s | %s s |' % m.groups())
+p1 = p1.replace('THOROUGHTABLE', '\n'.join(th))
 p1 = p1.replace('SEEDTABLE', table).replace('NFIX', nfix).replace('COSTTABLE', '\n'.join(rows))
 p2 = open('/verif/tools/design_part2.md').read()
 open('/verif/DESIGN.md', 'w').write(p1 + p2)
